@@ -200,16 +200,35 @@ fn crafted_stream(kind: u64, rng: &mut Rng, scale: usize, derived: &[u64]) -> (V
     use refmla::WBlock as W;
     let h = |d: &[u8]| -> [u8; 32] { sha256(d) };
     match kind {
-        0 => {
-            // thousands of index offsets all pointing at a block of another file
-            let blocks = vec![W::Start { id: 0, name: b"a".to_vec() }, W::Start { id: 1, name: b"b".to_vec() }, W::Content { id: 1, data: vec![7; 10] }, W::End { id: 1, hash: h(&[7; 10]) }, W::Content { id: 0, data: vec![1; 4] }, W::End { id: 0, hash: h(&[1; 4]) }, W::EndOfArchive];
-            let (mut s, offs) = refmla::encode_blocks(&blocks);
+        0 | 9 => {
+            // thousands of index offsets of file "a" pointing at blocks of ANOTHER file: either all at the same block, or
+            // (since the reader skips offsets it has already passed) at thousands of distinct blocks one after the other
             let n = 2000 * scale;
-            let mut o = vec![offs[0] as u64];
-            o.extend(std::iter::repeat(offs[2] as u64).take(n));
-            o.push(offs[4] as u64);
-            s.extend(refmla::encode_index(&[("a".into(), o, 4, offs[5] as u64), ("b".into(), vec![offs[1] as u64], 10, offs[3] as u64)]));
-            (s, "many-offsets-foreign-block")
+            if kind == 0 {
+                let blocks = vec![W::Start { id: 0, name: b"a".to_vec() }, W::Start { id: 1, name: b"b".to_vec() }, W::Content { id: 1, data: vec![7; 10] }, W::End { id: 1, hash: h(&[7; 10]) }, W::Content { id: 0, data: vec![1; 4] }, W::End { id: 0, hash: h(&[1; 4]) }, W::EndOfArchive];
+                let (mut s, offs) = refmla::encode_blocks(&blocks);
+                let mut o = vec![offs[0] as u64];
+                o.extend(std::iter::repeat(offs[2] as u64).take(n));
+                o.push(offs[4] as u64);
+                s.extend(refmla::encode_index(&[("a".into(), o, 4, offs[5] as u64), ("b".into(), vec![offs[1] as u64], 10, offs[3] as u64)]));
+                (s, "many-offsets-foreign-block")
+            } else {
+                let n = n / 4;
+                let mut blocks = vec![W::Start { id: 0, name: b"a".to_vec() }, W::Start { id: 1, name: b"b".to_vec() }];
+                for _ in 0..n {
+                    blocks.push(W::Content { id: 1, data: vec![7] });
+                }
+                blocks.push(W::End { id: 1, hash: h(&vec![7u8; n]) });
+                blocks.push(W::Content { id: 0, data: vec![1; 4] });
+                blocks.push(W::End { id: 0, hash: h(&[1; 4]) });
+                blocks.push(W::EndOfArchive);
+                let (mut s, offs) = refmla::encode_blocks(&blocks);
+                let mut o = vec![offs[0] as u64];
+                o.extend(offs[2..2 + n].iter().map(|x| *x as u64));
+                o.push(offs[n + 3] as u64);
+                s.extend(refmla::encode_index(&[("a".into(), o, 4, offs[n + 4] as u64), ("b".into(), vec![offs[1] as u64], n as u64, offs[n + 2] as u64)]));
+                (s, "many-offsets-many-foreign-blocks")
+            }
         }
         1 => {
             // empty offsets, offsets out of range, eof out of range
@@ -422,7 +441,7 @@ impl Prop for C08 {
         "fault_enumeration"
     }
     fn rule(&self) -> String {
-        "run = a hostile image derived from a seeded valid archive (all layer sets) by k <= 3 structured faults placed at any of the three layers of the stack: (stored) cut, bit flip, byte substitution, integer-field overwrite with boundary values, encrypted-chunk swap/duplicate/delete/splice, garbage tail, raw PRNG bytes; (inner) the decrypted/decompressed file-layer stream or the compressed stream is mutated on its parsed fields (block type/id/length, every index field, size-table fields: values 0,1,len-1,len,len+1,2^31,2^32-1,2^63,2^64-1... and PAIRS of related fields changed together so that their sum is kept (an entry of the sizes table emptied into its neighbour, +-1 moved between two neighbours, two values swapped); values DERIVED from the position arithmetic of the layers: the largest plaintext position whose position-with-tags fits in 64 bits, +-1, quotients/multiples of CHUNK, CHUNK+16 and BLOCK near 2^64), spans duplicated/deleted/moved, or replaced by a hand-built hostile stream (thousands of index offsets pointing at a foreign block, index offsets at the edge of what the layers' position arithmetic can represent, empty/out-of-range offset lists, degenerate and reused blocks, huge announced lengths, 512 MiB length prefixes, broken length fields, empty size table, last_block_size > BLOCK, huge compressed sizes, block longer than declared, brotli large-window header asking for a 1 GiB ring buffer, tens of thousands of empty one-byte brotli streams in a row) and then re-wrapped by the format model's foreign writer through compression and VALID encryption for the reader's key; the first 3000 quick runs enumerate, on s0 without layers, every single bit flip and every cut of one small archive's stored bytes. Then an operation history that continues after errors: open, list, open+read each listed and each original name with seeded buffers, read after errors, hashes, linear extraction (all / subset), repair in both modes, layer-level seeks (also beyond the end) and reads on a stack that already failed, drop. Oracle per operation: returns Ok or Err - no panic (overflow checks on), the worker process survives (stack overflow, abort), at most 200*len+50000 seam calls, peak live heap above the start of the operation <= 48 MiB + 16*len(image); a single request >= 1 GiB aborts the worker and is reported. evaluations = operations judged; distinct_nontrivial = distinct (variant, layers, fault placement, mutation kinds, operation, outcome class) signatures.".into()
+        "run = a hostile image derived from a seeded valid archive (all layer sets) by k <= 3 structured faults placed at any of the three layers of the stack: (stored) cut, bit flip, byte substitution, integer-field overwrite with boundary values, encrypted-chunk swap/duplicate/delete/splice, garbage tail, raw PRNG bytes; (inner) the decrypted/decompressed file-layer stream or the compressed stream is mutated on its parsed fields (block type/id/length, every index field, size-table fields: values 0,1,len-1,len,len+1,2^31,2^32-1,2^63,2^64-1... and PAIRS of related fields changed together so that their sum is kept (an entry of the sizes table emptied into its neighbour, +-1 moved between two neighbours, two values swapped); values DERIVED from the position arithmetic of the layers: the largest plaintext position whose position-with-tags fits in 64 bits, +-1, quotients/multiples of CHUNK, CHUNK+16 and BLOCK near 2^64), spans duplicated/deleted/moved, or replaced by a hand-built hostile stream (thousands of index offsets pointing at a foreign block or at thousands of distinct foreign blocks in a row, index offsets at the edge of what the layers' position arithmetic can represent, empty/out-of-range offset lists, degenerate and reused blocks, huge announced lengths, 512 MiB length prefixes, broken length fields, empty size table, last_block_size > BLOCK, huge compressed sizes, block longer than declared, brotli large-window header asking for a 1 GiB ring buffer, tens of thousands of empty one-byte brotli streams in a row) and then re-wrapped by the format model's foreign writer through compression and VALID encryption for the reader's key; the first 3000 quick runs enumerate, on s0 without layers, every single bit flip and every cut of one small archive's stored bytes. Then an operation history that continues after errors: open, list, open+read each listed and each original name with seeded buffers, read after errors, hashes, linear extraction (all / subset), repair in both modes, layer-level seeks (also beyond the end) and reads on a stack that already failed, drop. Oracle per operation: returns Ok or Err - no panic (overflow checks on), the worker process survives (stack overflow, abort), at most 200*len+50000 seam calls, peak live heap above the start of the operation <= 48 MiB + 16*len(image); a single request >= 1 GiB aborts the worker and is reported. evaluations = operations judged; distinct_nontrivial = distinct (variant, layers, fault placement, mutation kinds, operation, outcome class) signatures.".into()
     }
     fn assumptions(&self) -> Vec<String> {
         vec![
@@ -439,19 +458,19 @@ impl Prop for C08 {
     fn make(&self, seed: u64, run: u64, tier: Tier) -> Case {
         let mut rng = Rng::derive(seed, "C08", run, "gen");
         if (2800..3000).contains(&run) {
-            // every hand-built hostile stream on four (variant, layers) combinations: stream kinds 0..8 with
+            // every hand-built hostile stream on four (variant, layers) combinations: stream kinds 0..9 with
             // 8 PRNG draws each for the edge-of-arithmetic kind, compressed-stream kinds 0..6
             let k = run - 2800;
             let combos: [(&str, u8); 4] = [("prod", 0), ("s1", 3), ("s0", 1), ("prodv", 1)];
             let ccombos: [(&str, u8); 4] = [("prod", 2), ("s1", 3), ("s0", 2), ("prodv", 3)];
-            let (variant, layers, place, craft, mseed) = if k < 36 {
-                (combos[(k / 9) as usize].0, combos[(k / 9) as usize].1, 3, k % 9, 5)
-            } else if k < 64 {
-                let j = k - 36;
+            let (variant, layers, place, craft, mseed) = if k < 40 {
+                (combos[(k / 10) as usize].0, combos[(k / 10) as usize].1, 3, k % 10, 5)
+            } else if k < 68 {
+                let j = k - 40;
                 (ccombos[(j / 7) as usize].0, ccombos[(j / 7) as usize].1, 4, j % 7, 5)
             } else {
                 // the arithmetic-edge kind again, with other draws of the derived values
-                let j = k - 64;
+                let j = k - 68;
                 (combos[(j % 4) as usize].0, combos[(j % 4) as usize].1, 3, 8, 100 + j)
             };
             let hooks = variant != "prod";
@@ -511,7 +530,7 @@ impl Prop for C08 {
         case.params.insert("k".into(), rng.range(1, 3) as i64);
         case.params.insert("mut_seed".into(), (rng.u64() >> 1) as i64);
         case.params.insert("hist_seed".into(), (rng.u64() >> 1) as i64);
-        case.params.insert("craft".into(), rng.below(9) as i64);
+        case.params.insert("craft".into(), rng.below(10) as i64);
         case
     }
     fn exec(&self, case: &Case, ctx: &mut Ctx) -> Vec<Violation> {
